@@ -26,6 +26,12 @@ def mk_input(form, k, atom, numtype, bo, idx):
     if form == 'otherbo':
         obo = 'big' if bo == 'little' else 'little'
         return np.ndarray(dt_of(numtype, obo), (k,) + atom, Seq.of(src, k)), Seq.of(src, k)
+    if form in ('forder', 'strided'):
+        # same values, other MEMORY LAYOUT (column-major / non-contiguous); what is stored is row-major all the same
+        x = np.ndarray(dt_of(numtype, bo), (k,) + atom, Seq.of(src, k), order='F' if form == 'forder' else 'C')
+        if form == 'strided' and len(atom) >= 1:
+            x.flags.c_contiguous = x.flags.f_contiguous = False
+        return x, Seq.of(src, k)
     if form == 'cast':
         other = 'float64' if numtype != 'float64' else 'int32'
         return (np.ndarray(dt_of(other, 'little'), (k,) + atom, Seq.of(src, k)),
@@ -343,6 +349,10 @@ def _mk_real(np_, form, k, atom, numtype, bo, base):
         return rp.values(np_, k, atom, numtype, bo, base)
     if form == 'otherbo':
         return rp.values(np_, k, atom, numtype, 'big' if bo == 'little' else 'little', base)
+    if form == 'forder':
+        return np_.asfortranarray(rp.values(np_, k, atom, numtype, bo, base))
+    if form == 'strided':
+        return rp.values(np_, 2 * k, atom, numtype, bo, base)[::2]
     if form == 'cast':
         other = 'float64' if numtype != 'float64' else 'int32'
         return rp.values(np_, k, atom, other, 'little', base)
@@ -571,12 +581,15 @@ def obligations(tier):
     obs.append(Ob('S-append', 'h_append',
                   splits=[dict(numtype=nt, bo=bo, atom=at, form=f) for (nt, bo, at) in cfgs[:3]
                           for f in ('same', 'otherbo', 'cast', 'list')]
+                  + [dict(numtype='float64', bo='big', atom=(2,), form='forder'),
+                     dict(numtype='int16', bo='little', atom=(2, 3), form='forder'),
+                     dict(numtype='int16', bo='little', atom=(3,), form='strided')]
                   + [dict(numtype='float64', bo='little', atom=(), form='scalar'),
                      dict(numtype='int8', bo='little', atom=(), form='scalar'),
                      dict(numtype='float32', bo='big', atom=(), form='zerodim'),
                      dict(numtype='int16', bo='little', atom=(), form='zerodim')],
                   timeout=T, replay='replay_generic', sym='n, k, probe : int',
-                  bounds='0<=n,k<=2^62; one appended object of each input form'))
+                  bounds='0<=n,k<=2^62; one appended object of each input form (incl. column-major and strided ndarrays)'))
     obs.append(Ob('S-truncate', 'h_truncate',
                   splits=[dict(numtype=nt, bo=bo, atom=at, bypath=bp)
                           for (nt, bo, at) in cfgs[:3] for bp in (False, True)],
